@@ -1,6 +1,7 @@
 package logs
 
 import (
+	"github.com/go-logr/logr"
 	"strings"
 
 	"github.com/ARM-software/golang-utils/utils/zz_verif/verif"
@@ -200,4 +201,112 @@ func VerifC13_OwnsItsMemberList() {
 	verif.Assert("members_get_the_message", vHasOnce(m1.out, "ab") && vHasOnce(m2.out, "ab"))
 	verif.Assert("non_members_get_nothing", len(stranger.out) == 0)
 	_ = members
+}
+
+// vLogrSink is a logr sink double: it records every message together with the
+// log source its logger carried (the last "source" value added by WithValues).
+type vLogrSink struct {
+	values []interface{}
+	rec    *[]vLogrMsg
+}
+
+type vLogrMsg struct {
+	text, source string
+}
+
+func (s *vLogrSink) lastSource() string {
+	src := ""
+	for i := 0; i+1 < len(s.values); i += 2 {
+		if k, ok := s.values[i].(string); ok && k == KeyLogSource {
+			src, _ = s.values[i+1].(string)
+		}
+	}
+	return src
+}
+func (s *vLogrSink) Init(info logr.RuntimeInfo) {}
+func (s *vLogrSink) Enabled(level int) bool   { return true }
+func (s *vLogrSink) Info(level int, msg string, kv ...interface{}) {
+	*s.rec = append(*s.rec, vLogrMsg{msg, s.lastSource()})
+}
+func (s *vLogrSink) Error(err error, msg string, kv ...interface{}) {
+	*s.rec = append(*s.rec, vLogrMsg{msg, s.lastSource()})
+}
+func (s *vLogrSink) WithValues(kv ...interface{}) logr.LogSink {
+	n := &vLogrSink{rec: s.rec}
+	n.values = append(append([]interface{}{}, s.values...), kv...)
+	return n
+}
+func (s *vLogrSink) WithName(name string) logr.LogSink { return s }
+
+// VerifC13_CombinedWithLogrMember: a composite over the library's own logr
+// adapter (which has no lock of its own) used by two goroutines that both set
+// the log source: afterwards the source the adapter reports and the source its
+// messages carry agree (no lost update), and a message logged meanwhile is
+// delivered exactly once.
+func VerifC13_CombinedWithLogrMember() {
+	verif.ExploreSchedules(2)
+	verif.ExploreMemory(true)
+	var rec []vLogrMsg
+	member, err := NewLogrLogger(logr.New(&vLogrSink{rec: &rec}), "src")
+	verif.Assert("constructor", err == nil)
+	combined, err := NewCombinedLoggers(member)
+	verif.Assert("constructor", err == nil)
+	second := verif.Choice("second", 2) // what the other goroutine does: set another source / log a message
+	done := make(chan bool, 2)
+	go func() {
+		_ = combined.SetLogSource("B")
+		done <- true
+	}()
+	go func() {
+		if second == 0 {
+			_ = combined.SetLogSource("C")
+		} else {
+			combined.Log("during")
+		}
+		done <- true
+	}()
+	<-done
+	<-done
+	combined.Log("after")
+	lm := member.(*logrLogger)
+	n := len(rec)
+	verif.Assert("message_delivered", n >= 1 && rec[n-1].text == "after\n")
+	verif.Assert("messages_carry_the_source_the_logger_reports", rec[n-1].source == lm.logSource.Load())
+	if second == 1 {
+		verif.Assert("concurrent_message_delivered_exactly_once", n == 2 && rec[0].text == "during\n")
+	}
+}
+
+// VerifC13_LogrAdapterAlone: the same, on the logr adapter itself (no
+// composite around it to serialise its callers).
+func VerifC13_LogrAdapterAlone() {
+	verif.ExploreSchedules(2)
+	verif.ExploreMemory(true)
+	var rec []vLogrMsg
+	member, err := NewLogrLogger(logr.New(&vLogrSink{rec: &rec}), "src")
+	verif.Assert("constructor", err == nil)
+	second := verif.Choice("second", 2)
+	done := make(chan bool, 2)
+	go func() {
+		_ = member.SetLogSource("B")
+		done <- true
+	}()
+	go func() {
+		if second == 0 {
+			_ = member.SetLogSource("C")
+		} else {
+			member.Log("during")
+		}
+		done <- true
+	}()
+	<-done
+	<-done
+	member.Log("after")
+	lm := member.(*logrLogger)
+	n := len(rec)
+	verif.Assert("message_delivered", n >= 1 && rec[n-1].text == "after\n")
+	verif.Assert("messages_carry_the_source_the_logger_reports", rec[n-1].source == lm.logSource.Load())
+	if second == 1 {
+		verif.Assert("concurrent_message_delivered_exactly_once", n == 2 && rec[0].text == "during\n")
+	}
 }
